@@ -462,6 +462,7 @@ func c14(w *core.World, r *core.Report) {
 			}
 			bad := ""
 			seen := map[ssa.Value]bool{}
+			var appends []*ssa.Call
 			var visit func(v ssa.Value)
 			visit = func(v ssa.Value) {
 				for _, o := range core.Origins(v) {
@@ -475,6 +476,7 @@ func c14(w *core.World, r *core.Report) {
 						visit(x.X)
 					case *ssa.Call:
 						if bi, ok := x.Call.Value.(*ssa.Builtin); ok && bi.Name() == "append" {
+							appends = append(appends, x)
 							visit(x.Call.Args[0])
 						} else {
 							bad = core.CalleeKey(x)
@@ -485,6 +487,53 @@ func c14(w *core.World, r *core.Report) {
 				}
 			}
 			visit(a[3])
+			// one accumulating append, executed for every element: a second append site means the list is rebuilt
+			// (filtered, de-duplicated), a conditional one means some paths are left out
+			if bad == "" && len(appends) > 1 {
+				bad = fmt.Sprintf("%d append sites (the list is rebuilt from another list)", len(appends))
+			}
+			if bad == "" {
+				for _, ap := range appends {
+					for _, g := range core.GuardsOf(ap) {
+						cv, _ := core.StripNot(g.If.Cond)
+						isLoopHead := false
+						if bo, ok := cv.(*ssa.BinOp); ok && bo.Op == token.LSS {
+							if lc, ok := bo.Y.(*ssa.Call); ok {
+								if bi, ok := lc.Call.Value.(*ssa.Builtin); ok && bi.Name() == "len" {
+									isLoopHead = true
+								}
+							}
+						}
+						if ex, ok := cv.(*ssa.Extract); ok {
+							if _, isNext := ex.Tuple.(*ssa.Next); isNext {
+								isLoopHead = true
+							}
+						}
+						if !isLoopHead && core.InBody(get, g.If.Parent()) && g.If.Parent() == ap.Parent() {
+							bad = "a conditional append (" + w.InstrPos(g.If) + ")"
+						}
+					}
+				}
+			}
+			// ... and what is appended is made of the elements of req.GetPath() itself, not of a filtered copy of it
+			if bad == "" {
+				for _, ap := range appends {
+					for _, el := range appendedElems(ap) {
+						for _, coll := range elementSources(el, 0) {
+							for _, o := range core.Origins(coll) {
+								oc, isCall := o.(*ssa.Call)
+								if isCall && core.CalleeIs(oc, "github.com/sdcio/sdc-protos/sdcpb.GetDataRequest.GetPath") {
+									continue
+								}
+								if _, isParam := o.(*ssa.Parameter); isParam {
+									continue // the request's list handed to a helper
+								}
+								bad = "a list derived from the request's paths (" + o.String() + ")"
+							}
+						}
+					}
+				}
+			}
 			r.Check(bad == "", "ALL-PATHS", core.Site(get, "paths of %s", shortSrc(k)), w.InstrPos(c), "the list of paths to read passes through "+bad+": a requested path may be dropped")
 		}
 		if n == 0 {
@@ -944,6 +993,35 @@ func c15(w *core.World, r *core.Report) {
 		r.Check(all, "ALL-PRIORITIES", core.Site(run, "intended read for OVERRULED"), w.InstrPos(c), "only the ruling priority is read: lower-precedence intents are never compared, OVERRULED is unreachable")
 	}
 
+	// ---- SEEN-ALL
+	r.Rule("SEEN-ALL", 1, "the walk over the running config records EVERY entry it receives in the set that the second walk (intended paths missing in running -> NOT_APPLIED) consults: no path from receiving an entry to receiving the next one avoids the store into that set. An entry that is skipped before the bookkeeping (an 'optimisation' for key leaves, state, defaults) is later reported as missing in running for every intent that defines it.")
+	for _, b := range core.Blocks(run) {
+		for _, in := range b.Instrs {
+			mu, ok := in.(*ssa.MapUpdate)
+			if !ok {
+				continue
+			}
+			mt, isMap := mu.Map.Type().Underlying().(*types.Map)
+			if !isMap {
+				continue
+			}
+			if st, isSet := mt.Elem().Underlying().(*types.Struct); !isSet || st.NumFields() != 0 {
+				continue // not a set
+			}
+			var recv ssa.Instruction
+			for v := range core.DataSlice(run, []ssa.Value{mu.Key}).Values {
+				if u, isU := v.(*ssa.UnOp); isU && u.Op == token.ARROW {
+					recv = u
+				}
+			}
+			if recv == nil {
+				continue
+			}
+			skip, tr := core.PathQuery{Avoid: func(i ssa.Instruction) bool { return i == ssa.Instruction(mu) }}.Reaches(recv.Block(), core.InstrIndex(recv)+1, func(i ssa.Instruction) bool { return i == recv })
+			r.Check(!skip, "SEEN-ALL", core.Site(run, "every running entry is recorded as seen"), w.InstrPos(mu), fmt.Sprintf("an entry of the running walk can be skipped before it is recorded (blocks %v): the second walk then reports it as missing in running", tr))
+		}
+	}
+
 	// ---- OPERANDS
 	r.Rule("OPERANDS", 3, "the comparisons behind the reports have the right operands: the test guarding NOT_APPLIED compares the ruling intent's value normalised by TypedValueToYANGType with the running value (upd.Value()); the test guarding OVERRULED compares the ruling intent's normalised value with the lower intent's normalised value (both from TypedValueToYANGType, of different entries); the reported values are those operands.")
 	for _, s := range sends {
@@ -1033,6 +1111,7 @@ func c15(w *core.World, r *core.Report) {
 		r.Check(ok, "OPERANDS", core.Site(run, "UNHANDLED decided by a read of the intended store"), w.InstrPos(s.call), "a running path is unhandled iff the intended store holds nothing for it; "+detail)
 	}
 	ruleEqualLeaflist(w, r)
+	ruleLeafrefTarget(w, r)
 
 	// ---- EQUAL-EXACT
 	r.Rule("EQUAL-EXACT", 1, "the value comparison behind NOT_APPLIED / OVERRULED is exact: no function reachable from utils.EqualTypedValues (static calls inside the repository) converts a value number with loss (int64 -> float64, narrowing, sign change; rule table shared with C12.LOSSY). Comparing decimal64 values as floats makes numbers that differ in the 17th digit equal, so a real deviation is not reported.")
@@ -1196,4 +1275,61 @@ func differentHelperCalls(a, b ssa.Value) bool {
 		}
 	}
 	return true
+}
+
+// appendedElems: the values call c (builtin append) adds: the elements stored into its variadic argument array, or
+// the slice that is spread.
+func appendedElems(c *ssa.Call) []ssa.Value {
+	if len(c.Call.Args) < 2 {
+		return nil
+	}
+	var out []ssa.Value
+	if sl, ok := c.Call.Args[1].(*ssa.Slice); ok {
+		if al, ok := sl.X.(*ssa.Alloc); ok {
+			for _, ref := range *al.Referrers() {
+				if ia, ok := ref.(*ssa.IndexAddr); ok {
+					for _, r2 := range *ia.Referrers() {
+						if st, ok := r2.(*ssa.Store); ok && st.Addr == ssa.Value(ia) {
+							out = append(out, st.Val)
+						}
+					}
+				}
+			}
+			return out
+		}
+	}
+	return []ssa.Value{c.Call.Args[1]}
+}
+
+// elementSources: the collections whose elements value v is computed from (loads of coll[i], range values), looking
+// through the arguments of the calls that compute v.
+func elementSources(v ssa.Value, depth int) []ssa.Value {
+	if depth > 3 {
+		return nil
+	}
+	var out []ssa.Value
+	for _, o := range append(core.Origins(v), v) {
+		switch x := o.(type) {
+		case *ssa.UnOp:
+			if ia, ok := x.X.(*ssa.IndexAddr); ok {
+				out = append(out, ia.X)
+			}
+		case *ssa.Index:
+			out = append(out, x.X)
+		case *ssa.Extract:
+			if n, ok := x.Tuple.(*ssa.Next); ok {
+				if rg, ok := n.Iter.(*ssa.Range); ok {
+					out = append(out, rg.X)
+				}
+			}
+		case *ssa.Call:
+			if _, isB := x.Call.Value.(*ssa.Builtin); isB {
+				continue
+			}
+			for _, a := range x.Call.Args {
+				out = append(out, elementSources(a, depth+1)...)
+			}
+		}
+	}
+	return out
 }
